@@ -4,18 +4,26 @@ Implementation under test: partitura/musicanalysis/performance_codec.py
 (encode_performance, decode_performance, to_matched_score, get_matched_notes,
 get_time_maps_from_alignment and the helpers they call).
 
-Per generated case (a single-part score with chords / voices / grace notes / pickup, a
+Per generated case (a single-part score with chords / voices / unisons / grace notes / pickup, a
 performance aligned note for note, an alignment with matches, insertions, deletions,
-ornaments and dangling ids, one of 5 normalisations x 2 tempo-curve methods):
+ornaments and dangling ids, one of 5 normalisations x 2 tempo-curve methods; inputs as
+Part/PerformedPart, single-part Score/Performance or note arrays):
 
  (a) direct oracle, in Python, independent of the Coq model:
-     decode(encode(perf)) gives every matched note its performed onset up to ONE common
-     shift, its performed duration and its velocity (single precision); the matched-note
-     table / matched score contain exactly the matches with both ids present, ordered by
-     score onset then pitch; the time maps pass through the matched onsets (chord means);
- (b) correspondence: the Gallina model (coq/Model/C18.v), evaluated inside Coq on the same
-     note arrays and alignment, agrees with the implementation's snote_ids, encoded
-     parameter array, decoded array, matched index table and time-map values.
+     decode(encode(perf)) -- with the encoding normalisation, with the beat_period column alone, with and
+     without snote_ids -- gives every matched note its performed onset up to ONE common shift, its
+     performed duration and its velocity (single precision, tolerance propagated from the magnitudes
+     stored as float32); the matched-note table / matched score contain exactly the matches with both
+     ids present (table: in any order; score: ordered by score onset then pitch); the time maps pass
+     through the matched onsets (chord means) and stay between neighbouring knots;
+ (b) correspondence, two levels, evaluated inside Coq (coq/Model/C18_Check.v):
+     PROPERTY bits (c18_check; a failure is a violation): the implementation's outputs satisfy the model's
+     SPECIFICATIONS -- table = matched_idx as a multiset, snote_ids = any sorted permutation (sids_ok),
+     the parameter array is consistent with the performance as Model/C18.v's decoder reads it (cons_off
+     constant, articulation, velocity, beat_period column = rescaled normalisation columns), every decoded
+     performance = the model decoder on the same parameters, time maps at the knots;
+     TIE bits (c18_tie; a failure is a failed 'model tie' obligation, not a violation): the outputs are
+     still computed by the formulas of Model/C18.v (tempo curves, timing origin, v/127, constants, ...).
 """
 import json
 import math
@@ -647,26 +655,42 @@ def classify(code):
 
 
 def run(ctx):
-    ctx.rule = ("Generated single-part scores (1-12 score onsets; single notes, chords, 2-3 voices, unisons, grace notes, pickup, "
-                "6 time signatures, 9 division values), one performed note per score note (flavours: musical tempo walk with chord "
-                "spread, unrelated random positive IOIs, deadpan dyadic, wild = arbitrary times, single onset), shuffled alignments "
-                "with deletions, insertions, ornaments and matches whose score/performance id does not exist; one of 5 normalisations "
-                "x 2 tempo methods per case (thorough: additionally all 10 configurations on a sub-sample).  Distinct non-trivial = "
-                "distinct cases with >= 2 score onsets of which at least one carries >= 2 matched notes.")
+    ctx.rule = ("Generated single-part scores (1-12 score onsets + optional tail; single notes, chords of 2-4, 2-3 voices, unisons = same onset "
+                "and pitch in two voices, grace notes 20% per onset, pickup 35%, trailing grace note 12% (60% of them after a note of "
+                "triplet length), 6 time signatures, 9 division values incl. 480 with onsets 1/480 beat apart), one performed note per "
+                "score note (flavours: musical tempo walk with chord spread 46%, unrelated random positive IOIs 20%, deadpan dyadic 10%, "
+                "wild = arbitrary times incl. decreasing 12% (outside the quantifier's positive IOIs; kept because the algebra and "
+                "monotonize_times must cope), single onset 7%, lonely = all but one onset deleted 5%), shuffled alignments with deletions "
+                "8% per note, onsets at which only grace notes stay matched (30% of grace onsets), 0-2 insertions/ornaments, matches whose "
+                "score/performance id does not exist 12% each; one of 5 normalisations x 2 tempo methods per case, every encoding decoded "
+                "with its own normalisation, with beat_period alone and (all notes matched) without snote_ids; inputs as Part/PerformedPart "
+                "70%, as single-part Score/Performance 15%, as note arrays (matched score, time maps) 15%; thorough: additionally all 10 "
+                "configurations on a sub-sample.  Distinct non-trivial = distinct cases with >= 2 score onsets of which at least one "
+                "carries >= 2 matched notes.")
     ctx.trusted = ["Coq 8.16.1 kernel incl. vm_compute", "harness/props/c18.py: generator, partitura object builder, printers of note arrays "
-                   "and implementation outputs as exact rationals, Python-side 2** applied to logarithmic columns before comparison",
+                   "and implementation outputs as exact rationals, Python-side 2** applied to logarithmic columns before comparison, "
+                   "tolerances handed to the Coq checkers",
                    "numpy/scipy float arithmetic (modelled by exact rationals within the declared tolerances)",
                    "Part.note_array / PerformedPart.note_array (the codec's inputs are taken from them; their content is property C05/C14's concern)"]
-    ctx.assumptions = ["float32 fields compared with relative 5e-7 (4 ulp) + 1e-7 absolute; fields that pass through log2/2** with relative 1e-5",
-                       "decoded onsets compared up to 2e-6 * max(1, performance span); decoded durations relative 1e-5",
-                       "exp2/log2 and sqrt are not modelled in Q: logarithmic columns are exponentiated in Python, the standard deviation is "
-                       "compared through its square; their inverse laws are proved over R (Proofs/C18_real.v)",
-                       "generated distinct score onsets differ by >= 1/480 beat, so float and exact grouping agree"]
+    ctx.assumptions = ["'within single-precision rounding' = error propagated from the float32 storage of the parameters: decoded onsets (and the "
+                       "timing relation) are compared up to 2e-6 (~16 ulp) x the largest magnitude involved (1, performance span, |timing|, "
+                       "|timing + performed onset| = equivalent onsets; beat periods of ~1e3 s/beat over 1/480-beat score intervals give "
+                       "equivalent onsets of ~1e3 s, hence ~1e-4 s), plus for beat_period_standardized 8 ulp x (|mean| + max|bp - mean|) x "
+                       "score span; decoded durations relative 1e-5 + 1e-6 absolute",
+                       "float32 fields compared with relative 5e-7 (4 ulp) + 1e-7 absolute in the model-tie comparisons; fields that pass through "
+                       "log2/2** with relative 1e-5",
+                       "exp2/log2 and sqrt are not modelled in Q: logarithmic columns are exponentiated in Python (so a chord's mean of "
+                       "logarithms is compared as an arithmetic mean of equal values), the standard deviation is compared through its "
+                       "square; their inverse laws are proved over R (Proofs/C18_real.v)",
+                       "generated distinct score onsets differ by >= 1/480 beat, so float and exact grouping agree",
+                       "a failure of the 'model tie' obligation (outputs no longer computed by the formulas written in Model/C18.v although every "
+                       "property-level comparison holds) is reported as a failed obligation, not as a violation: the property prescribes no "
+                       "tempo formula, timing origin, normalisation constant, tie-break among equal (onset, pitch), table order or extrapolation"]
     ctx.matchers["C18-K1"] = lambda r: isinstance(r, dict) and str(r.get("code", "")).endswith("_dur_grace")
     ctx.matchers["C18-K2"] = lambda r: isinstance(r, dict) and str(r.get("code", "")).endswith("_dur_floor")
-    ok, why = ctx.coq_props(expect_min=10)
-    n_cases = 150 if ctx.tier == "quick" else 2200
-    n_full = 0 if ctx.tier == "quick" else 80
+    ok, why = ctx.coq_props(expect_min=20)
+    n_cases = 150 if ctx.tier == "quick" else 5000
+    n_full = 0 if ctx.tier == "quick" else 100
     rng = ctx.rng
     cases = []
     for k in range(n_cases):
@@ -730,7 +754,12 @@ def run(ctx):
             else:
                 terms.append(t)
                 kept.append(case)
-    ctx.sample({"case": cases[0]})
+    for c in cases[:3]:
+        ctx.sample({"features": case_features(c), "config": {k: c[k] for k in ("qd", "ts", "pickup", "flavour", "norm", "method",
+                                                                                 "remove_ornaments", "wrap")},
+                    "score_notes(id,pitch,start,end,voice,grace)": [[n["id"], n["pitch"], n["start"], n["end"], n["voice"], n["grace"]] for n in c["notes"]],
+                    "performed_notes(id,pitch,on,off,vel)": [[p["id"], p["pitch"], round(p["on"], 4), round(p["off"], 4), p["vel"]] for p in c["perf"]],
+                    "alignment": c["align"]})
     ctx.obligation("direct oracle: decode(encode) / matched notes / time maps on %d generated cases" % len(cases), n_viol == 0,
                    "%d failing observations" % n_viol)
     if not ok and n_viol == 0:
